@@ -4,6 +4,40 @@ _NOTE = ('Trusted: CPython ast, mypy-inferred receiver types (callee resolution)
          'modules. Decides only the structural clauses named; runtime values, timing and histories are not decided.')
 
 CLAIMS = {
+    'C16': {
+        'text': 'FlowSpec: ascending component order, EOL cleared on all and set on the last operator, AND bit untouched, RD first; '
+                'value width thresholds and the power/rewop tables; component registry 1-13 by family; NLRI length writer and '
+                'reader agree (240 switch, 0xFnnn up to 4095, 8-bit shift); malformed input raises and is mapped to INVALID, '
+                'never a shorter rule; traffic action (type, subtype) constants; the text parser reassigns the AND flag before '
+                'every operator. Not decided: operator/value semantics of every rule text.',
+        'note': _NOTE,
+        'technique': 'constant folding, writer/reader layout comparison, bit-width inference, guard checks, path-sensitive flag tracking over the parser CFG',
+    },
+    'C17': {
+        'text': 'After _clear() every exit of _reload (return or escaping exception) passes commit or rollback; nothing rolls back '
+                'or reports failure after the commit; replace_reload compares attributes and next hop, forces re-announcement, '
+                'and withdraws leftovers unconditionally; Reactor.reload touches peers only after success. Not decided: equality '
+                'of peer tables for arbitrary configuration pairs.',
+        'note': _NOTE,
+        'technique': 'must-pass-through on the CFG with exception edges, reachability after commit, def-use atoms of the re-announce decision',
+    },
+    'C19': {
+        'text': 'Memoised decoding: each early return of class-level state in a decode-reachable function that computes with '
+                '`negotiated` must make the hit depend on the session (or be provably off); the cached collection never holds a key '
+                'its consumer pops; no decode-reachable rewrite of a class attribute of a multiply-registered class; negotiated is '
+                'read-only while decoding; singletons not mutated (thorough). One known finding (F18). Not decided: equality of '
+                'outputs over message sequences.',
+        'note': _NOTE,
+        'technique': 'runtime-class-write inventory with mypy types, guard atom analysis, registry multiplicity, decode reachability',
+    },
+    'C20': {
+        'text': 'The rise/fall automaton of one() is extracted by symbolic evaluation over the complete finite predicate space (96 '
+                'cells) and compared with the reference automaton; what exabgp() writes per state; SIGTERM / KeyboardInterrupt '
+                'withdraw unconditionally; every emitted keyword is in the static route parser and the prefix is a v6 dispatch '
+                'path. Not decided: timing, the external check command.',
+        'note': _NOTE,
+        'technique': 'decision-table extraction by exhaustive symbolic evaluation of the if-tree, writer/reader grammar table agreement',
+    },
     'C13': {
         'text': 'Field-sensitive taint of the members holding text decoded from wire bytes; every value interpolated into a JSON '
                 'fragment by the response encoders and by ~140 json() methods is int-like, closed-alphabet, a nested json() '
